@@ -166,7 +166,7 @@ open EmitModel EmitModel.SpanGuard
 /-  stream `c05m` : (c05m FORM LVL OK ERR MAPPED PAN ENABLED EXIT (clock R…) [HOLDER])
         HOLDER (as in c05): the macro call site is generic over the runtime and the runtime holds the scripted clock
         that way (fixtures in c05m/holders.rs: FORM sync|async, OK none|info, nothing else) -/
-/-      FORM ::= sync | async | gdrop | gcomplete | block | bunstarted | blate | bwhenf | bwhent ; LVL,OK,ERR,PAN ::= none | debug|info|warn|error
+/-      FORM ::= sync | async | gdrop | gcomplete | block | bunstarted | blate | bwhenf | bwhent | ssetup | asetup ; LVL,OK,ERR,PAN ::= none | debug|info|warn|error
         EXIT ::= ok | early | qerr | reterr | panic
     → ret=<ok1|ok2|ok7|err|panic> events=(…) -/
 
@@ -196,7 +196,7 @@ def runC05m (line : String) : String :=
       let holderOk := holder.isNone || (isFn && lvl.isNone && err.isNone && !mapped && pan.isNone && (ok.isNone || ok == some "debug"))
       let clk := match holder with | some h => h.script clk | none => clk
       let mdl := if holder.isSome then "hcore::streams::c05m::holders" else "hcore::streams::c05m::fixtures"
-      let formOk := holderOk && (isFn || ((form == "gdrop" || form == "gcomplete" || form == "block" || form == "bunstarted" || form == "blate" || form == "bwhenf" || form == "bwhent")
+      let formOk := holderOk && (isFn || ((form == "gdrop" || form == "gcomplete" || form == "block" || form == "bunstarted" || form == "blate" || form == "bwhenf" || form == "bwhent" || form == "ssetup" || form == "asetup")
         && ok.isNone && err.isNone && !mapped))
       let exit? : Option (Exit × String) :=
         if exit == "ok" then some (.ok, if isFn then "ok1" else "ok7")
@@ -208,7 +208,8 @@ def runC05m (line : String) : String :=
       | true, some (ex, ret) =>
         let cfg : MacroCfg := ⟨lvl, ok, err, mapped, mapped, pan, form == "gcomplete"⟩
         -- a call-site `when:` filter replaces the runtime's (C01 `call_site_overrides`): `bwhenf` rejects, `bwhent` accepts
-        let enabled := if form == "bwhenf" then false else if form == "bwhent" then true else enabled
+        -- `setup:` runs before the span is created; the fixtures' setup switches the filter on
+        let enabled := if form == "bwhenf" then false else if form == "bwhent" || form == "ssetup" || form == "asetup" then true else enabled
         -- `blate`: the body reads the clock once before it starts the guard (that reading is not the span's)
         let clk := if form == "blate" then (now clk).2 else clk
         let evs :=
